@@ -415,7 +415,15 @@ def gen_lean():
                         assigned[n.targets[0].id] = ast.unparse(n.value)
                         if isinstance(n.value, ast.Compare):
                             cmp_of[n.targets[0].id] = n.value
-                for node in body:
+                flat = []
+                for node in body:            # `if a: raise .. elif b: raise ..` is the same sequence of guards as two ifs
+                    flat.append(node)
+                    cur = node
+                    while isinstance(cur, ast.If) and any(isinstance(x, ast.Raise) for x in cur.body) and len(cur.orelse) == 1 \
+                            and isinstance(cur.orelse[0], ast.If):
+                        cur = cur.orelse[0]
+                        flat.append(cur)
+                for node in flat:
                     if isinstance(node, ast.Expr) and isinstance(node.value, ast.Call) and isinstance(node.value.func, ast.Name) \
                             and node.value.func.id.startswith("_") and node.value.func.id in segdefs:
                         h = segdefs[node.value.func.id]
